@@ -22,8 +22,8 @@ ASSUMPTIONS = [
     "A-SSL: OpenSSL honours the SSL_read/SSL_write retry contract, emits application data only after the handshake, and "
     "its records are confidential (the check only sees that a random 32-byte marker never appears in the raw stream)",
     "A-TCP: loopback is a lossless FIFO",
-    "handshake_completes_partial is about the reference engine HsEngine; agreement of HsEngine with OpenSSL is validated "
-    "only by the pairing matrix run here",
+    "handshake completion itself is NOT a theorem (no HsEngine composition was proved): it rests on the per-call theorems "
+    "plus the pairing matrix run here (complete in the thorough tier)",
 ]
 TRUSTED = ["system OpenSSL 3 (libssl/libcrypto)", "link-time interposition of SSL_read/SSL_write_ex/BIO_get_data in the harness"]
 ALL_TAGS = ["send.unlimited", "send.zero", "send.limited", "recv.unlimited", "recv.zero", "recv.limited",
@@ -170,10 +170,10 @@ LEVEL_TEXT = ("Machine-checked theorems about the library's TLS glue (Read/Write
               "the wire except through ssl_write (non-interference); nothing is delivered unless the engine answered `done` (hence only "
               "after init_finished under the engine contract) and an engine error always surfaces as an exception with zero bytes, "
               "sticky; the POLLOUT protocol invariant (queued data is always armed or remembered as suppressed, restored after the "
-              "handshake); Write's count/retry-same-buffer discipline; Read's bounds; and completion of the handshake for a reference "
-              "engine with both endpoints synchronous and non-blocking under every fair schedule and segmentation "
-              "(handshake_completes_partial). The three pre-fix variants (319faf2, e3dfab5, ee81033) are kept as Legacy configurations "
-              "with proved violations. Tied to /repo on every run: the real sockets run the pairing matrix against real OpenSSL; "
+              "handshake); Write's count/retry-same-buffer discipline; Read's bounds; no stale WANT_READ/WANT_WRITE across calls and no "
+              "round-limit cut of a long Send after the handshake. The three pre-fix variants (319faf2, e3dfab5, ee81033) are kept as "
+              "Legacy configurations with proved violations. Completion of the handshake for all pairings is NOT a theorem "
+              "(the HsEngine composition was not reached); it is established by the exhaustive implementation matrix only. Tied to /repo on every run: the real sockets run the pairing matrix against real OpenSSL; "
               "every SSL_read/SSL_write_ex answer, BIO callback and poll/send/recv is replayed into the model, which must make the "
               "same calls and return the same results; Spec.C18 is evaluated on the raw bytes and API results.")
 LEVEL_NOTE = ("Trusted: Lean kernel; axioms propext/Quot.sound/Classical.choice; the hand-written model (correspondence on the "
